@@ -12,9 +12,9 @@ VARIABLE stage
 isvars == <<vars, stage>>
 
 ImplInit ==
-  \E s \in ShapeSet :
-     LET a  == AbsOf(s)
-         nr == Len(s.rows)
+  \E f \in Families : \E r \in RootSetsOf(f), e \in EdgeSetsOf(f), w \in RowSeqsOf(f), m \in MapsOf(f) :
+     LET s  == Shape(f, r, e, w, m)
+         a  == AbsOf(s)
      IN
        /\ stage = 0
        /\ nalloc = a.nalloc /\ nodes = a.nodes /\ H = a.H /\ E = a.E /\ armed = a.armed
